@@ -77,12 +77,32 @@ def _cmd(incremental, timestamp):
     return cmd
 
 
-def k_timezone(offset: int, tsi: int):
+class _TimeModel:
+    """the C library's view of the local zone (time module): a standard offset, an optional
+    daylight-saving offset, and whether DST is in force at the instant converted"""
+
+    def __init__(self, std_off, dst_extra, is_dst):
+        self.timezone = -std_off
+        self.altzone = -(std_off + dst_extra)
+        self.daylight = 1 if dst_extra != 0 else 0
+        self._off = std_off + (dst_extra if is_dst else 0)
+        self.tzname = ('STD', 'DST')
+
+    def mktime(self, tt):
+        return float(calendar.timegm(tuple(tt)[:6] + (0, 0, 0)) - self._off)
+
+    def time(self):
+        return 1.7e9
+
+
+def k_timezone(offset: int, tsi: int, dst: bool = False, is_dst: bool = False):
     tsv = TS_VALUES[sym.pick_index(tsi, len(TS_VALUES))]
-    LocalNaive.offset = offset
+    dst_extra = 3600 if dst else 0
+    LocalNaive.offset = offset + (dst_extra if (dst and is_dst) else 0)
     ts = LocalNaive(*tsv)
     _Loader.ts_entry = ManifestEntryTIMESTAMP(ts)
     with Swap(g_cli, ManifestRecursiveLoader=_Loader, logging=_Log,
+              time=_TimeModel(offset, dst_extra, dst and is_dst),
               find_top_level_manifest=lambda p: '/x/Manifest'):
         rc = _cmd(True, False)()
     utc_epoch = calendar.timegm(tsv + (0, 0, 0))
@@ -90,20 +110,26 @@ def k_timezone(offset: int, tsi: int):
     return rc == 0 and got == utc_epoch, offset != 0
 
 
-def k_timezone_pre(offset: int, tsi: int):
+def k_timezone_pre(offset: int, tsi: int, dst: bool = False, is_dst: bool = False):
     return -14 * 3600 <= offset <= 14 * 3600 and 0 <= tsi < len(TS_VALUES)
 
 
 def k_timezone_real(args):
-    """stage 2: the real C library under a real TZ setting with the same UTC offset"""
+    """stage 2: the real C library under a real TZ setting with the same standard offset
+    and, if the counterexample has them, DST rules that put the TIMESTAMP inside or outside
+    the DST period (all TIMESTAMP values lie in Nov-Jan: northern rules = standard time,
+    southern rules = DST in force)"""
     import os
     import time
     off = args['offset']
     tsv = TS_VALUES[args['tsi']]
     sign = '-' if off >= 0 else '+'          # POSIX TZ: "XXX-5" is UTC+5
     a = abs(off)
+    tz = 'VFX%s%02d:%02d:%02d' % (sign, a // 3600, a % 3600 // 60, a % 60)
+    if args.get('dst'):
+        tz += 'VFD,M10.1.0,M3.3.0' if args.get('is_dst') else 'VFD,M3.5.0,M10.5.0'
     old = os.environ.get('TZ')
-    os.environ['TZ'] = 'VFX%s%02d:%02d:%02d' % (sign, a // 3600, a % 3600 // 60, a % 60)
+    os.environ['TZ'] = tz
     time.tzset()
     try:
         _Loader.ts_entry = ManifestEntryTIMESTAMP(datetime.datetime(*tsv))
@@ -281,9 +307,11 @@ def conditions(tier):
                  specialise(k_timezone_pre, tsi=tsi), timeout=120, group='timezone',
                  descr='real UpdateCommand.__call__ with --incremental: the last_mtime handed '
                        'to the loader equals the UTC epoch of the TIMESTAMP whatever the '
-                       'local UTC offset; datetime.timestamp() modelled by its documented '
-                       'contract (naive = local time)',
-                 bounds='offset any whole second in [-14h, +14h]; 3 TIMESTAMP values')
+                       'local UTC offset; datetime.timestamp() and the time module (mktime, '
+                       'timezone, altzone, daylight) modelled by their documented contracts',
+                 bounds='standard offset any whole second in [-14h, +14h], zone with or '
+                        'without DST rules, DST in force or not at the TIMESTAMP; 3 TIMESTAMP '
+                        'values')
         c.replay_real = (lambda a, _t=tsi: k_timezone_real({**a, 'tsi': _t}))
         cs.append(c)
     for w, h in ((False, False), (True, False), (False, True)):
@@ -313,6 +341,9 @@ def conditions(tier):
                    bounds='clock steps 0..100000 s between calls'))
     return cs
 
+
+# validate() compares the real implementation with the property itself
+VALIDATION_CHECKS_PROPERTY = True
 
 ASSUMPTIONS = [
     'datetime.timestamp(): naive values are interpreted as local time, aware values exactly '
